@@ -246,7 +246,7 @@ class HistoryRun:
         spec = self.st.spec
         self.count('origin:' + origin)
         if origin == 'xlsx':
-            driver.build_xlsx(spec, self.stored)
+            driver.build_xlsx(spec, self.stored, cycles=self.cfg.get('cycles'))
             return None, None
         driver.build_nodata(spec, cycles=self.cfg.get('cycles'))
         if origin in SERIAL:
